@@ -175,8 +175,11 @@ def check_property(prop, tier):
         b['discharged'] += 1 if o['status'] == 'discharged' else 0
     ev = dict(property_id=prop, tier=tier, seed=seed, level=level, coverage=cov, assumptions=assumes,
               wall_s=round(time.time() - t0, 2), violations=len(vio_lines))
-    os.makedirs(EVID, exist_ok=True)
-    with open(os.path.join(EVID, prop + '.json'), 'w') as f:
+    # VERIF_EVIDENCE_DIR: where to write the evidence file (default evidence/); seeded/run_all.py points it at a scratch
+    # directory so that runs against deliberately broken trees never overwrite the committed evidence
+    evdir = os.environ.get('VERIF_EVIDENCE_DIR') or EVID
+    os.makedirs(evdir, exist_ok=True)
+    with open(os.path.join(evdir, prop + '.json'), 'w') as f:
         json.dump(ev, f, indent=1)
     for uid, r in sorted(results.items()):
         print('[%s] %s %-4s %-9s obligations=%d discharged=%d wall=%.1fs %s' % (
